@@ -2,13 +2,7 @@
 """Regenerates MANIFEST.json from the table below (kept valid at all times)."""
 import json, os
 V = os.path.dirname(os.path.abspath(__file__))
-CLAIMED = {
- 'C18': dict(
-   text='Lean 4 theorems about the model of Base64 (encode = RFC 4648 spec for every byte string; decode(encode x) = x for every x; every text with a character outside the alphabet is rejected), kernel-checked, axioms audited; the model is tied to the code by regenerating the alphabet table from the source and by a differential run of the real encode/decode against the executable model (exhaustive for inputs of length 0..2 in quick, 0..3 in thorough).',
-   note='Trusted: Lean kernel; propext/Classical.choice/Quot.sound; translator for the alphabet; correspondence harness and generators; Rust std char/str primitives as modelled; one stated model abstraction (chunks with bytes >= 0x80 answer Err).',
-   technique='Lean 4 proof over hand-written model + table translator + differential correspondence (exhaustive small inputs)',
-   design='6/C18'),
-}
+CLAIMED = json.load(open(os.path.join(V, 'claimed.json')))   # per-property claim texts, one entry per claimed property
 PENDING_REASON = 'not claimed yet: model, theorems and correspondence for this property are still being built (plan in DESIGN.md section 6); nothing is asserted about it'
 def main():
     props = [json.loads(l)['id'] for l in open(os.path.join(V, 'properties.jsonl'))]
